@@ -385,6 +385,36 @@ def gen_main() -> str:
     return tr.function(Fn("exit_code", {"messages": "strlist", "blockers": "bool"}, "Z"))
 
 
+ALT = os.path.join(vlib.COQ, "C13", "alt")
+
+
+def exit_variant() -> str:
+    """Which exit-status alternative applies to the count_stats of the working tree, decided on its syntax:
+    `refuted` while a comprehension filters by a substring test (`": note:" in e`), otherwise `truth`.
+    The harness then BUILDS the chosen file; if it does not build it tries the other one."""
+    tree = ast.parse(vlib.read_repo("mypy/util.py"))
+    fs = [n for n in tree.body if isinstance(n, ast.FunctionDef) and n.name == "count_stats"]
+    if len(fs) != 1:
+        raise Unsupported("count_stats not found")
+    for n in ast.walk(fs[0]):
+        if isinstance(n, ast.Compare) and len(n.ops) == 1 and isinstance(n.ops[0], ast.In) \
+                and isinstance(n.left, ast.Constant) and isinstance(n.left.value, str):
+            return "refuted"
+    return "truth"
+
+
+def place_exit(variant: str) -> dict[str, str]:
+    """Copy coq/C13/alt/Exit<Variant>{,Proofs}.v.txt to coq/gen/ErrorsExit{,Proofs}.v (gen/ is regenerated)."""
+    name = {"truth": "ExitTruth", "refuted": "ExitRefuted"}[variant]
+    out = {}
+    for suffix in ("Proofs", ""):
+        with open(os.path.join(ALT, f"{name}{suffix}.v.txt"), encoding="utf-8") as f:
+            text = f"(* COPIED from coq/C13/alt/{name}{suffix}.v.txt by tools/extractors/t13.py (variant: {variant}) *)\n" + f.read()
+        vlib.write_if_changed(os.path.join(vlib.GEN, f"ErrorsExit{suffix}.v"), text)
+        out[f"ErrorsExit{suffix}.v"] = text
+    return out
+
+
 def generate() -> dict[str, str]:
     util, helpers = gen_util()
     text = "\n\n".join([
@@ -394,7 +424,9 @@ def generate() -> dict[str, str]:
         "(* mypy/main.py main(): exit status *)\n" + gen_main(),
     ]) + "\n"
     vlib.write_if_changed(os.path.join(vlib.GEN, "ErrorsCore.v"), text)
-    return {"ErrorsCore.v": text}
+    files = {"ErrorsCore.v": text}
+    files.update(place_exit(exit_variant()))
+    return files
 
 
 if __name__ == "__main__":
